@@ -7,7 +7,7 @@
    allocated; Isolated w K = HeapInv + the client's reach is allocated and disjoint from
    the tracked state's; client_step = ANY change of the heap a memory-safe holder of K can
    cause (arbitrary writes to what it reaches, allocation, no forged pointers). *)
-Require Import Bytes AMap Names State Heap HeapSpec HeapLemmas HeapCopy HeapClient HeapTheorems HeapExamples HeapWf HeapWfHandlers.
+Require Import Bytes AMap Names State Heap HeapSpec HeapLemmas HeapCopy HeapClient HeapTheorems HeapExamples HeapWf HeapWfHandlers HeapWfIso.
 Local Open Scope nat_scope.
 
 (* ---- the Copy methods ---- *)
@@ -177,3 +177,13 @@ Theorem C13_getters_total : forall w, HeapWf w ->
   (exists r, users_g w = Ok r) /\ (exists r, channels_g w = Ok r).
 Proof. exact getters_total. Qed.
 Print Assumptions C13_getters_total.
+
+(* isolation AND the strong invariant hold in every state reachable by any interleaving of
+   server events, client steps and getter calls *)
+Theorem C13_isolation_wf_invariant : forall g cfg w K, steps g cfg (world_init, []) (w, K) -> Isolated w K /\ HeapWf w.
+Proof. exact reachable_isolated_wf. Qed.
+Print Assumptions C13_isolation_wf_invariant.
+
+Theorem C13_example_wf : HeapWf ex_world1 /\ Isolated ex_world1 [ex_o].
+Proof. exact ex_wf. Qed.
+Print Assumptions C13_example_wf.
